@@ -188,9 +188,6 @@ func (g *guard) ReleaseTreasureGuard(guardID ID) {
 
 	if len(g.waitForUnlock) > 0 && g.waitForUnlock[0] == int64(guardID) {
 		g.waitForUnlock = g.waitForUnlock[1:]
-		if len(g.waitForUnlock) == 0 {
-			atomic.StoreInt64(&g.largestGuardID, 0)
-		}
 		if verifhook.Enabled {
 			verifhook.Point("guard.rel", g, int64(guardID), true)
 		}
